@@ -2,14 +2,16 @@
    A case is the abstract I/O trace of one real run, the verdict of the harness's own
    (Rust) copy of the monitor, and, for sampled crash points, the transaction ids that
    the real log scanner (Wal::replay_committed) recovers from the materialised image. *)
-From NDB Require Export Crash.Protocol Corr.Common.
+From NDB Require Export Crash.Protocol Crash.NodeTable Corr.Common.
 
 Record case := {
   c_rtrace : list rstep;                             (* the same run at record granularity *)
   c_trace : list step;
   c_seeded : bool;                                   (* reserved *)
   c_monitor_ok : bool;                               (* harness-side monitor verdict *)
-  c_points : list (nat * mode * option (list N))     (* abstract crash index, mode, ids recovered by the implementation *)
+  c_points : list (nat * mode * option (list N));    (* abstract crash index, mode, ids recovered by the implementation *)
+  c_ntrace : list nstep;                             (* node-table writes of the same run *)
+  c_ntab_ok : bool                                   (* harness-side node-table monitor verdict *)
 }.
 
 Definition ids_eqb (a b : list N) : bool := list_eqb N.eqb a b.
@@ -33,4 +35,5 @@ Definition ok (c : case) : bool :=
   (* the Coq grouping of the record-level trace is the harness's abstract trace *)
   list_eqb step_eqb (abstract (c_rtrace c)) (c_trace c) &&
   Bool.eqb (protocol_ok (c_trace c)) (c_monitor_ok c) &&
+  Bool.eqb (ntab_ok (c_ntrace c)) (c_ntab_ok c) &&
   forallb (point_ok (c_trace c)) (c_points c).
